@@ -120,7 +120,7 @@ def gen_lift(cat, rnd, thorough):
     REFL = ['__radd__', '__rsub__', '__rmul__', '__rtruediv__', '__rfloordiv__', '__rmod__', '__rpow__', '__rlshift__',
             '__rrshift__', '__rand__', '__ror__', '__rxor__']
     names = sorted(set(methods) | set(builtins))
-    reps = 2 if thorough else 1
+    reps = 4 if thorough else 1
     for name in names:
         m = methods.get(name)
         b = builtins.get(name)
@@ -290,7 +290,7 @@ def gen_from_shapes(shapes, rnd, per_shape):
 # ------------------------------------------------------------------ kernel laws
 def gen_range(rnd, thorough):
     out = []
-    W = list(range(-24, 25)) if thorough else list(range(-16, 17, 1))
+    W = list(range(-32, 33)) if thorough else list(range(-16, 17, 1))
     bounds = [(-8, 8), (0, 8), (0, 16), (4, 12), (-12, -4), (3, 11), (-5, 6), (0, 1), (8, 8), (-16, 16), (0, 24), (2, 3)]
     types = ['iii', 'fff', 'fii', 'iff', 'fif', 'ffi', 'iif']
 
@@ -333,7 +333,7 @@ def gen_range(rnd, thorough):
                     continue
                 out.append(dict(ty='range', fn='mod', a=[arg(ty[0], x), arg(ty[1], m)]))
     # seeded random larger arguments
-    for _ in range(4000 if thorough else 600):
+    for _ in range(20000 if thorough else 600):
         fn = rnd.choice(['wrap', 'fold', 'clip', 'round', 'roundup', 'trunc', 'mod'])
         x = rnd.randint(-800, 800)
         if fn in ('wrap', 'fold', 'clip'):
@@ -345,6 +345,8 @@ def gen_range(rnd, thorough):
         ty = [rnd.choice('if') for _ in a]
         a = [arg(t, (v // 8) * 8 if t == 'i' else v) for t, v in zip(ty, a)]
         if fn in ('wrap', 'fold') and a[1]['v'] >= a[2]['v']:
+            continue
+        if fn == 'clip' and a[1]['v'] > a[2]['v']:      # truncating an int bound may have crossed them
             continue
         if fn == 'mod' and a[1]['v'] <= 0:
             continue
@@ -440,6 +442,9 @@ def run(ctx):
     acts = ('PickList', 'PickFn', 'PickStream', 'PickScalar', 'PickSame', 'PickKernel')
     r = ctx.model_check('Ops', 'Ops_thorough.cfg' if thorough else 'Ops.cfg', require_cover=acts, timeout=900)
     ctx.expect_ok(r, 'Ops structure and kernel-law model')
+    r = ctx.model_check('OpsStream', 'OpsStream_thorough.cfg' if thorough else 'OpsStream.cfg',
+                        require_cover=('DrawA', 'DrawB'), timeout=300)
+    ctx.expect_ok(r, 'BinopStream draw order refines the stream law')
     stage['model'] = round(time.time() - ctx.t0, 1)
 
     cat = get_catalog(ctx)
@@ -508,5 +513,5 @@ MANIFEST = dict(
           'driver is trusted.'),
     technique='TLA+ structural law with uninterpreted kernel + integer kernel laws model-checked by TLC; batch trace validation of enumerated compositions and lattice applications',
     design_ref='DESIGN.md section 3 / C15',
-    engine='Ops',
+    engine='Ops, OpsStream',
 )
